@@ -17,6 +17,7 @@ import asyncio
 import inspect
 
 import c14_fuzz as F
+import secsm
 from common import hx
 
 ID = "C14"
@@ -38,6 +39,11 @@ ASSUMPTIONS = [
     "sub-function byte of the DiagnosticSessionControl reply cannot overflow",
     "one connection, requests handled one after the other (handle_client awaits each request); asyncio.StreamReader / "
     "StreamWriter by contract",
+    "reply_length_bounds assumes random_payload length <= 4090 and DTC count <= 1023 for the handler call; the code draws "
+    "both from expovariate (53-bit random(): at most ~294 for the payload, ~1837 for the DTC count), so a reply longer than "
+    "4095 bytes needs a DTC-count draw above 1023 (probability ~1e-9 per call) - not excluded by the code, not a clause of "
+    "the property (tcp-lines has no length limit)",
+    "time: the clock is read exactly twice per request (start, end); ticks of 0.25 s",
 ]
 
 SUBFN = [0x10, 0x11, 0x19, 0x27, 0x28, 0x2C, 0x31, 0x3E, 0x85]
@@ -566,6 +572,10 @@ class Runner:
 
 # ------------------------------------------------------------------------------------------------------------------
 def run(ctx):
+    # the session / security state machine over whole histories, exhaustively over a small alphabet of request kinds, with
+    # both clock reads of handle_request (harness/secsm.py); first, because it installs its own clock and the main part
+    # re-installs its own below
+    secsm.explore(ctx, "c14")
     env = F.make_env(ctx.seed)
     rn = Runner(ctx, env)
     try:
@@ -784,6 +794,8 @@ def _run(ctx, env, rn):
 
 def replay(ctx, case):
     c = case.get("case", case)
+    if c.get("kind") == "history":
+        return secsm.replay(ctx, c, "c14")
     env = F.make_env(0)
     real = F.Real(env, c["seed"], params_from_json(env, c.get("params", {})))
     items = c.get("history", [])
@@ -827,10 +839,16 @@ MANIFEST = {
                    "request object with those bytes, decodes and re-encodes to itself; after any history of non-empty "
                    "requests at any times (inactivity resets included, a different oracle per request) the session is still "
                    "offered and no request hits an assert or index error; every model RandomUDSServer.randomize can build "
-                   "(all draw streams) satisfies the hypotheses. Handler shape (dispatch ladder, NRCs, response classes, "
+                   "(all draw streams) satisfies the hypotheses; the same over histories with both clock reads of handle_request "
+                   "(history_reply_accepted_clock); every negative response a handler can return names the request's "
+                   "service, carries one of five codes, has a class in the regenerated exception map and is accepted by the "
+                   "client (handler_negatives_accepted); no handler reply exceeds 4095 bytes within the stated draw bounds "
+                   "(reply_length_bounds). Handler shape (dispatch ladder, NRCs, response classes, "
                    "draws) regenerated from the AST of server.py on every run. Tied to the code by a correspondence run of "
                    "the real RandomUDSServer behind UDSServerTransport.handle_request / TCPUDSServerTransport.handle_client "
-                   "with recorded RNG draws and the real helpers.parse_pdu on every reply."),
+                   "with recorded RNG draws and the real helpers.parse_pdu on every reply, incl. all request sequences over 10 / 12 "
+                   "request kinds of the security state machine up to length 5 / 3 (6 / 5 thorough) with scripted start / end "
+                   "clock reads, compared state by state and reply by reply (harness/secsm.py)."),
     "level_note": ("Partial: \"neither raises nor drops the connection\" is a statement about Python exceptions; the model has "
                    "only the chain's own three exception sites as outcomes (proved unreachable), every other exception is "
                    "excluded by the correspondence run only (random histories up to N = 200, all one- and two-byte requests, "
